@@ -59,19 +59,81 @@ def names_offset(fi, expr, depth=0):
     return None
 
 
-def argcover_sites(R):
-    """All get_args_tuple call sites in tools.py with their enclosing function."""
+def normaliser_helpers(R):
+    """Module-level functions of tools.py that wrap get_args_tuple: name -> FuncInfo."""
     tm = R.repo.modules["tools"]
+    out = {}
+    for name, f in tm.functions.items():
+        if any(isinstance(n, ast.Call) and q.call_name(n) == "get_args_tuple" for n in q.scope_nodes(f.node)) and len(q.param_names(f.node)) >= 5:
+            out[name] = f
+    return out
+
+
+def argcover_sites(R):
+    """All key-normalisation call sites in tools.py (get_args_tuple, or a helper wrapping it) with
+    their enclosing function.  Calls inside the helpers themselves are decided by VARARGS-SAFE."""
+    tm = R.repo.modules["tools"]
+    helpers = normaliser_helpers(R)
+    names = set(["get_args_tuple"]) | set(helpers)
     out = []
     for f in tm.all_functions.values():
+        if f.name in helpers and f.parent is None:
+            continue
         for n in q.scope_nodes(f.node):
-            if isinstance(n, ast.Call) and q.call_name(n) == "get_args_tuple":
+            if isinstance(n, ast.Call) and q.call_name(n) in names:
                 out.append((f, n))
             if isinstance(n, ast.Lambda):
                 for c in ast.walk(n.body):
-                    if isinstance(c, ast.Call) and q.call_name(c) == "get_args_tuple":
+                    if isinstance(c, ast.Call) and q.call_name(c) in names:
                         out.append((f, c))
     return out
+
+
+def varargs_safe_helper(R, prefix):
+    """The helper never lets positional overflow (arguments that go to *varargs) be matched against
+    keyword-only names."""
+    for name, f in normaliser_helpers(R).items():
+        ps = q.param_names(f.node)
+        a, k, pn, kw, d = ps[:5]
+        cfg = cfg_of(f)
+        calls = kit.call_sites(f, lambda c: q.call_name(c) == "get_args_tuple")
+
+        def no_overflow(nd):
+            if nd.kind != "test":
+                return None
+            kk, ss, pos = q.atom_test(nd.ast)
+            if kk == "lt" and ss == ("len(%s)" % pn, "len(%s)" % a):     # len(names) < len(args): overflow
+                return "F" if pos else "T"
+            return None
+        ok = True
+        n_mixed = 0
+        for n, c in calls:
+            if len(c.args) != 4:
+                ok = False
+                continue
+            names_src = q.src(c.args[2])
+            if kw in q.names_loaded(c.args[2]) and pn in q.names_loaded(c.args[2]):
+                n_mixed += 1
+                # positional + keyword-only names together: only without overflow
+                if kit.path_avoiding_guard(cfg, [n], no_overflow, N) is not None:
+                    ok = False
+                if q.src(c.args[0]) != a or names_src != "%s + %s" % (pn, kw):
+                    ok = False
+            elif names_src == kw:
+                # keyword-only part on its own: no positional arguments may be offered
+                if not (isinstance(c.args[0], ast.Tuple) and not c.args[0].elts):
+                    ok = False
+                st = q.enclosing_stmt(c)
+                if not (isinstance(st, ast.Return) and q.src(st.value).startswith("tuple(%s) + " % a)):
+                    ok = False
+            else:
+                ok = False
+            if q.src(c.args[1]) != k or q.src(c.args[3]) != d:
+                ok = False
+        R.check(ok and n_mixed == 1 and len(calls) == 2, prefix + ".VARARGS-SAFE", f.qualname, R.site(f),
+                "%s matches positional names only against as many positional arguments as there are names; overflow (*varargs) is keyed as given, "
+                "keyword-only arguments are normalised separately" % name,
+                "%s can match keyword-only names against positional overflow" % name)
 
 
 def peeled_for_keyfn(R, keyfn_owner, keyfn_name, site_fi):
@@ -101,11 +163,31 @@ def argcover_rule(R, prefix, only=None):
         n += 1
         site = R.site(f, call)
         key = "%s:get_args_tuple" % top.qualname
-        R.need(len(call.args) == 4, "idiom: get_args_tuple not called with 4 positional arguments in %s" % f.qualname)
-        A, K, NM, D = call.args
+        direct = q.call_name(call) == "get_args_tuple"
+        if direct:
+            R.need(len(call.args) == 4, "idiom: get_args_tuple not called with 4 positional arguments in %s" % f.qualname)
+            A, K, NM, D = call.args
+            KW = None
+        else:
+            R.need(len(call.args) == 5, "idiom: %s not called with 5 positional arguments in %s" % (q.call_name(call), f.qualname))
+            A, K, NM, KW, D = call.args
         off = names_offset(f, NM)
         R.need(off is not None, "idiom: cannot trace the argument-names expression `%s` in %s" % (q.src(NM), f.qualname))
         k, kwonly, spec = off
+        if not direct:
+            kwv = KW
+            if isinstance(KW, ast.Name):
+                _, vv = closure_assign(f, KW.id)
+                kwv = vv[0][1] if len(vv) == 1 and vv[0][0] == "expr" else KW
+            kwonly = isinstance(kwv, ast.Attribute) and kwv.attr == "kwonlyargs" and q.src(kwv.value) == spec and not kwonly
+        else:
+            # positional and keyword-only names handed to get_args_tuple together: positional overflow (arguments that go
+            # to *varargs) is then counted against the keyword-only names
+            R.check(not kwonly, prefix + ".VARARGS-SAFE", key + ":mixed-names", site,
+                    "keyword-only names are not mixed into the positional names of a direct get_args_tuple call",
+                    "get_args_tuple receives 'positional names + keyword-only names' with the caller's *args as given: for a wrapped function with *varargs, "
+                    "extra positional arguments are counted against the keyword-only names, which then never enter the key "
+                    "(f(1, 2, 3, flag=True) and f(1, 2, 3, flag=False) share an entry)")
         # which function receives the caller's arguments?
         peeled = None
         recv = None
@@ -173,6 +255,7 @@ def argcover_rule(R, prefix, only=None):
                         "the key function can return something other than the normalised tuple (%s): different spellings of the same arguments get different keys"
                         % "; ".join(q.src(r)[:50] for r in rets if r.value is not call))
     R.need(n >= 1, "no get_args_tuple site for %s" % (only,))
+    varargs_safe_helper(R, prefix)
 
 
 def cache_body_rules(R, prefix, wrapper_fi, cache_expr_pred, what):
